@@ -267,10 +267,21 @@ def struct_children(g, n_cp=None):
 def struct_parents(g):
     """Struct holding nested values flattened into the counterpart via #[parent(..)] (README 'Parent instructions')."""
     r = g.r
-    cps = r.sample(["A", "B", "G<i32>", "Q<'x, u8>"], r.choice([1, 1, 2]))
+    cps = r.sample(["A", "B", "G<i32>", "Q<'x, u8>"], r.choice([1, 2, 2]))
     shape = "named"
     it = Item("struct", "S", shape=shape)
     it.attrs = g.trait_set(cps)
+    into_only = None
+    if len(cps) == 2 and g.chance(0.4):
+        # the first counterpart is only converted Into (its nests need no types), the other one also From
+        into_only = cps[0]
+        keep = [t for t in it.attrs if t.f["ty"] != into_only or not any(k.startswith("from") for k in kinds_of(t.name))]
+        if not any(t.f["ty"] == into_only for t in keep):
+            keep.append(Instr(r.choice(["owned_into", "ref_into", "into", "into_existing"]), "trait", ty=into_only, hint=None, err=None, params=[]))
+        if not any(t.f["ty"] == cps[1] and any(k.startswith("from") for k in kinds_of(t.name)) for t in keep) and not any(t.f["ty"] == cps[1] and t.name in ("from", "from_owned") for t in keep):
+            if not any(t.f["ty"] == cps[1] and "from_owned" in kinds_of(t.name) and not t.f.get("err") for t in keep):
+                keep.append(Instr("from_owned", "trait", ty=cps[1], hint=None, err=None, params=[]))
+        it.attrs = keep
     it.meta["cps"] = cps
     nf = r.randint(1, 4)
     have_parent = False
@@ -306,7 +317,7 @@ def struct_parents(g):
                     if len(xs) == 1 and not xs[0].startswith("["):
                         xs.append(f"x{g.mark()}")  # a single bare ident would be read as a dedicated type
                     return ", ".join(xs)
-                c = r.choice(cps) if g.chance(0.25) else None
+                c = (into_only if (into_only and g.chance(0.6)) else r.choice(cps)) if g.chance(0.25 if into_only is None else 0.6) else None
                 args = plist(0)
                 from_cps = {t.f["ty"] for t in it.attrs if t.kind == "trait" and any(k.startswith("from") for k in kinds_of(t.name))}
                 if c is not None and c not in from_cps and g.chance(0.6):
